@@ -22,6 +22,9 @@ pub struct TxStep {
     pub data_len: u8,
     /// distinct lock args variant (affects hashes / indexer keys)
     pub lock_variant: u8,
+    /// 0 ordinary transfer, 1 NervosDAO deposit, 2 DAO withdraw phase 1, 3 DAO withdraw phase 2
+    #[serde(default)]
+    pub kind: u8,
 }
 
 #[derive(Clone, Debug, Serialize, Deserialize)]
@@ -57,22 +60,31 @@ pub struct PlanParams {
     pub tx_rate: u8,
     pub invalid_pct: u8,
     pub uncle_pct: u8,
+    /// share of generated transactions that are NervosDAO operations (needs the fake-DAO spec)
+    pub dao_pct: u8,
 }
 
 pub fn tx_step_strategy() -> impl Strategy<Value = TxStep> {
+    tx_step_strategy_with(0)
+}
+
+pub fn tx_step_strategy_with(dao_pct: u8) -> impl Strategy<Value = TxStep> {
+    let d = dao_pct as u32;
     (
         proptest::collection::vec(any::<u16>(), 1..=3),
         1u8..=3,
         0u8..8,
         prop_oneof![4 => Just(0u8), 2 => 1u8..20, 1 => 20u8..200],
         0u8..4,
+        prop_oneof![(100 - d).max(1) => Just(0u8), d.max(1) => 1u8..=3],
     )
-        .prop_map(|(inputs, outputs, fee, data_len, lock_variant)| TxStep {
+        .prop_map(move |(inputs, outputs, fee, data_len, lock_variant, kind)| TxStep {
             inputs,
             outputs,
             fee,
             data_len,
             lock_variant,
+            kind: if dao_pct == 0 { 0 } else { kind },
         })
 }
 
@@ -81,6 +93,7 @@ pub fn block_step_strategy(p: &PlanParams) -> impl Strategy<Value = BlockStep> +
     let txr = p.tx_rate as u32;
     let inv = p.invalid_pct as u32;
     let unc = p.uncle_pct as u32;
+    let dao = p.dao_pct;
     (
         // parent_mode: 0 = extend best tip, 1 = extend another leaf, 2 = fork from a recent block
         prop_oneof![
@@ -94,7 +107,7 @@ pub fn block_step_strategy(p: &PlanParams) -> impl Strategy<Value = BlockStep> +
         any::<u16>(),
         prop_oneof![
             (100 - txr).max(1) => Just(vec![]),
-            txr.max(1) => proptest::collection::vec(tx_step_strategy(), 1..=3),
+            txr.max(1) => proptest::collection::vec(tx_step_strategy_with(dao), 1..=3),
         ],
         prop_oneof![3 => Just(0u8), 1 => 1u8..=2],
         any::<u16>(),
@@ -104,7 +117,9 @@ pub fn block_step_strategy(p: &PlanParams) -> impl Strategy<Value = BlockStep> +
         prop_oneof![(100 - inv).max(1) => Just(0u8), inv.max(1) => 1u8..=12],
     )
         .prop_map(
-            |(parent_mode, parent, ts, uncles, uncle_sel, new_txs, repropose, repropose_sel, commit_mask, miner, ext_extra, invalid)| {
+            move |(parent_mode, parent, ts, uncles, uncle_sel, new_txs, repropose, repropose_sel, commit_mask, miner, ext_extra, invalid)| {
+                let invalid = if inv == 0 { 0 } else { invalid };
+                let uncles = if unc == 0 { 0 } else { uncles };
                 BlockStep {
                     parent_mode,
                     parent,
@@ -439,6 +454,104 @@ impl<'a> Interp<'a> {
             .collect()
     }
 
+    /// live NervosDAO cells (deposit or withdrawing) on top of `parent`
+    fn dao_cells(&self, parent: &H) -> BTreeMap<CellKey, LiveCell> {
+        let st = &self.tree.get(parent).state;
+        st.live
+            .iter()
+            .filter(|(_, c)| c.output.type_().to_opt().map(|t| t == self.env.dao_type).unwrap_or(false))
+            .map(|(k, c)| (*k, c.clone()))
+            .collect()
+    }
+
+    fn build_dao_deposit(&self, ts: &TxStep, avail: &mut BTreeMap<CellKey, (CellOutput, usize)>) -> Option<TransactionView> {
+        if avail.is_empty() {
+            return None;
+        }
+        let k = *avail.keys().nth(pick_idx(ts.inputs[0] as u32, avail.len())).unwrap();
+        let (o, _) = avail.remove(&k).unwrap();
+        let in_cap = cap(&o);
+        let fee: u64 = [0u64, 1, 1000, 100_000][ts.fee as usize % 4];
+        let out = CellOutput::new_builder()
+            .capacity(Capacity::shannons(in_cap - fee))
+            .lock(self.env.always_success_lock.clone())
+            .type_(Some(self.env.dao_type.clone()).pack())
+            .build();
+        if occupied_shannons(&out, 8) + 100_000_000 > (in_cap - fee) as u128 {
+            return None;
+        }
+        Some(
+            TransactionBuilder::default()
+                .cell_dep(self.env.always_success_dep.clone())
+                .cell_dep(self.env.dao_dep.clone())
+                .input(CellInput::new(out_point_of(&k), 0))
+                .output(out)
+                .output_data(Bytes::from(vec![0u8; 8]))
+                .build(),
+        )
+    }
+
+    fn build_dao_phase1(&self, parent: &H, ts: &TxStep, dao: &mut BTreeMap<CellKey, LiveCell>) -> Option<TransactionView> {
+        let cands: Vec<CellKey> = dao
+            .iter()
+            .filter(|(_, c)| c.data.iter().all(|b| *b == 0) && c.block_number > 0)
+            .map(|(k, _)| *k)
+            .collect();
+        if cands.is_empty() {
+            return None;
+        }
+        let k = cands[pick_idx(ts.inputs[0] as u32, cands.len())];
+        let c = dao.remove(&k).unwrap();
+        let deposit = self.tree.ancestor(parent, c.block_number)?;
+        Some(
+            TransactionBuilder::default()
+                .cell_dep(self.env.always_success_dep.clone())
+                .cell_dep(self.env.dao_dep.clone())
+                .header_dep(deposit.hash.clone())
+                .input(CellInput::new(out_point_of(&k), 0))
+                .output(c.output.clone())
+                .output_data(Bytes::from(c.block_number.to_le_bytes().to_vec()))
+                .build(),
+        )
+    }
+
+    fn build_dao_phase2(&self, parent: &H, ts: &TxStep, dao: &mut BTreeMap<CellKey, LiveCell>) -> Option<TransactionView> {
+        let cands: Vec<CellKey> = dao
+            .iter()
+            .filter(|(_, c)| c.data.len() == 8 && c.data.iter().any(|b| *b != 0))
+            .map(|(k, _)| *k)
+            .collect();
+        if cands.is_empty() {
+            return None;
+        }
+        let k = cands[pick_idx(ts.inputs[0] as u32, cands.len())];
+        let c = dao.remove(&k).unwrap();
+        let deposit_number = u64::from_le_bytes(c.data[..8].try_into().ok()?);
+        let d = self.tree.ancestor(parent, deposit_number)?;
+        let w = self.tree.ancestor(parent, c.block_number)?;
+        let (maxw, _) = self.tree.dao_withdraw_value(&c, parent).ok()?;
+        let fee: u64 = [0u64, 1, 1000, 100_000][ts.fee as usize % 4];
+        let out = CellOutput::new_builder()
+            .capacity(Capacity::shannons(maxw - fee))
+            .lock(self.env.always_success_lock.clone())
+            .build();
+        let witness = ckb_types::packed::WitnessArgs::new_builder()
+            .input_type(Some(Bytes::from(0u64.to_le_bytes().to_vec())).pack())
+            .build();
+        Some(
+            TransactionBuilder::default()
+                .cell_dep(self.env.always_success_dep.clone())
+                .cell_dep(self.env.dao_dep.clone())
+                .header_dep(d.hash.clone())
+                .header_dep(w.hash.clone())
+                .input(CellInput::new(out_point_of(&k), 0))
+                .output(out)
+                .output_data(Bytes::new())
+                .witness(witness.as_bytes().pack())
+                .build(),
+        )
+    }
+
     /// committable candidates in deterministic order, honouring in-block dependencies
     fn commit_candidates(&self, parent: &H) -> Vec<TransactionView> {
         let ids = self.tree.committable(parent);
@@ -454,9 +567,13 @@ impl<'a> Interp<'a> {
             let mut rest = vec![];
             for tx in pending {
                 let ins: Vec<CellKey> = tx.inputs().into_iter().map(|i| cell_key(&i.previous_output())).collect();
-                let ok = ins
-                    .iter()
-                    .all(|k| (st.live.contains_key(k) || created.contains(k)) && !spent.contains(k));
+                let deps_ok = tx
+                    .header_deps_iter()
+                    .all(|h| self.tree.blocks.contains_key(&h) && self.tree.is_ancestor(&h, parent));
+                let ok = deps_ok
+                    && ins
+                        .iter()
+                        .all(|k| (st.live.contains_key(k) || created.contains(k)) && !spent.contains(k));
                 if ok {
                     for k in ins {
                         spent.insert(k);
@@ -525,9 +642,23 @@ impl<'a> Interp<'a> {
         }
         // new transactions created + proposed here
         let mut avail = self.spendable(&parent);
+        let mut dao_avail = self.dao_cells(&parent);
         let mut proposals = vec![];
         for ts in &step.new_txs {
-            if let Some(tx) = build_tx(self.env, ts, &mut avail) {
+            let built_tx = match ts.kind {
+                1 => self.build_dao_deposit(ts, &mut avail),
+                2 => self.build_dao_phase1(&parent, ts, &mut dao_avail),
+                3 => self.build_dao_phase2(&parent, ts, &mut dao_avail),
+                _ => build_tx(self.env, ts, &mut avail),
+            };
+            if let Some(tx) = built_tx {
+                if ts.kind != 0 {
+                    self.label(match ts.kind {
+                        1 => "tx:dao-deposit",
+                        2 => "tx:dao-withdraw-phase1",
+                        _ => "tx:dao-withdraw-phase2",
+                    });
+                }
                 let id = tx.proposal_short_id();
                 proposals.push(id.clone());
                 self.txs.insert(pid(&id), tx);
@@ -615,6 +746,7 @@ impl<'a> Interp<'a> {
                         fee: 3,
                         data_len: 0,
                         lock_variant: 0,
+                        kind: 0,
                     };
                     match build_tx(self.env, &ts, &mut avail2) {
                         Some(tx) if !self.tree.committable(&parent).contains(&pid(&tx.proposal_short_id())) => {
